@@ -421,3 +421,56 @@ def R11S(body, ctx):
         body = body[:s] + new + body[m.end():]
         n += 1
     return body, n
+
+
+def R11M(body, ctx):
+    """`I.next().map(|PAT| BODY)` -> `match I.next() { Some(PAT') => Some(BODY'), None => None }`
+    (`Option::map`: "Maps an Option<T> to an Option<U> by applying a function to a contained value (if Some)
+    or returns None (if None)"). Verus has no closures with pattern parameters or with captured `&mut`
+    state; the match is the inlined closure. A reference sub-pattern `&(a, b)` inside PAT (unsupported by
+    Verus) becomes a fresh binder `r_` with `let (a, b) = *r_;` in front of BODY (the tuple is `Copy`, else
+    rustc rejects the result and the unit is undecided)."""
+    n = 0
+    while True:
+        mask = code_mask(body)
+        ms = _code_matches(r'\.\s*next\s*\(\s*\)\s*\.\s*map\s*\(', body, mask)
+        if not ms:
+            break
+        m = ms[0]
+        clo, k = _call_args(body, m.end() - 1, mask)
+        cm = code_mask(clo)
+        a = _skip_ws(clo, 0)
+        if a >= len(clo) or clo[a] != '|':
+            raise LostAnchor('R11M: argument of map is not a closure')
+        mb = find_top(clo, r'\|', a + 1, cm)
+        if not mb:
+            raise LostAnchor('R11M: closure parameter list not closed')
+        pat = clo[a + 1:mb.start()].strip()
+        cbody = clo[mb.end():].strip()
+        if not pat or not cbody or find_top(pat, r',') or ':' in pat:
+            raise LostAnchor('R11M: closure must have exactly one untyped parameter')
+        lets = ''
+        cnt = 0
+        while True:
+            mr = re.search(r'&\s*\(\s*(%s(?:\s*,\s*%s)*)\s*\)' % (IDENT, IDENT), pat)
+            if not mr:
+                break
+            cnt += 1
+            name = 'r%d_' % cnt
+            lets += 'let (%s) = *%s; ' % (mr.group(1), name)
+            pat = pat[:mr.start()] + name + pat[mr.end():]
+        if '&' in pat:
+            raise LostAnchor('R11M: reference pattern of an unsupported shape in `%s`' % pat)
+        if lets:
+            if cbody.startswith('{') and match_close(cbody, 0) == len(cbody) - 1:
+                cbody = '{ ' + lets + cbody[1:]
+            else:
+                cbody = '{ ' + lets + cbody + ' }'
+        s = _postfix_start(body, m.start(), mask)
+        recv = body[s:m.start()].strip()
+        if not recv:
+            raise LostAnchor('R11M: no receiver in front of `.next().map(..)`')
+        new = 'match %s.next() { Some(%s) => Some(%s), None => None }' % (recv, pat, cbody)
+        body = body[:s] + new + body[k:]
+        n += 1
+    return body, n
